@@ -33,6 +33,10 @@ pub fn cli_args(opts: &Opts) -> Vec<String> {
     a.push("-d".into());
     a.push(opts.d.to_string());
     a.push(format!("--update={}", opts.upd));
+    if let Some(f) = &opts.fmt {
+        a.push("-F".into());
+        a.push(f.clone());
+    }
     if let Some(m) = &opts.m {
         for x in m {
             a.push("-M".into());
